@@ -11,7 +11,7 @@ theorem cover_insert (hP : P.Layout) (w : World) (g : Ghost ι) (hi : Inv P hf w
     (hl : ∀ y, y ∈ l → y = x ∨ y ∈ g.under (keyOf v f) f.cfg) :
     Inv P hf (commit P w v f (setBits (w.val f) (f.off P) (indices h.1 h.2 f.capBits f.numHashes)) nbs d hdr)
       (g.set (keyOf v f) f.cfg l) := by
-  have hcap : 0 < f.capBits := hi.2 v f hv
+  have hcap : 0 < f.capBits := (hi.2 v f hv).1
   refine ⟨cover_set hi.1 _ _ _ (fun key hk => keyVal_commit_ne P w v f _ _ _ _ hv key hk) ?_, capPos_commit hi.2 v f hv _ _ _ _⟩
   -- old items under this configuration are covered by the old content
   have hold : Covers hf (w.val f) (f.off P) f.cfg (g.under (keyOf v f) f.cfg) := by
